@@ -7,7 +7,7 @@
    Writer configuration: cfg0 = {| capmap := None; quick := None |} (identity slot map, full code). *)
 From Verif Require Import Base.Prelude Model.Tree Model.Spec Model.VM Model.Writer Gen.RunnerGen
   Proofs.SpecProofs Proofs.SpecBoundsProofs Proofs.MaskProofs
-  Proofs.VMU Proofs.VMUOps Proofs.VMUOps2 Proofs.VMUOps3 Proofs.CompileBase
+  Proofs.VMU Proofs.VMUOps Proofs.VMUOps2 Proofs.VMUOps6 Proofs.VMUOps3 Proofs.CompileBase
   Proofs.CompileDefs Proofs.CompileStage1 Proofs.CompileLoop Proofs.CompileCharLoop Proofs.CompileMulti.
 From Coq Require Import Relations ZifyBool.
 
